@@ -291,7 +291,11 @@ impl<S: futures_core::Stream + Unpin> futures_core::Stream for ProgressBarIter<S
         let item = std::pin::Pin::new(&mut this.it).poll_next(cx);
         match &item {
             std::task::Poll::Ready(Some(_)) => this.progress.inc(1),
-            std::task::Poll::Ready(None) => this.progress.finish_using_style(),
+            std::task::Poll::Ready(None) => {
+                if !this.progress.is_finished() {
+                    this.progress.finish_using_style();
+                }
+            }
             std::task::Poll::Pending => {}
         }
         item
